@@ -1058,7 +1058,7 @@ func init() {
 	fw.Register(&fw.Property{
 		ID:          "C05",
 		Level:       "exploration",
-		Rule:        "generated (base, branch1..N) tuples, N in 2..3: base tables of 1..3 blocks with the key column(s) first / middle / last / composite / absent; per branch a seeded edit script touching few rows (cell edits incl. clearing a cell, row adds/removes, column add/remove/reorder/rename, reorder-plus-inserts, the same cell edited identically or differently, remove-vs-edit, the same new key added by all) so that most rows are untouched; driven through merge.Merger + RowCollector exactly as cmd/wrgl does (conflicts dropped, removed columns from ColDiff) with SortedRows, with SortedBlocks + IngestTableFromBlocks (result then goes through the structural monitor), and through in-process `wrgl merge` (+export, or --no-gui CONFLICTS listing); compared with a cell-level reference merge with explicit don't-cares; branch order swapped in half the cases; merge(b;X,b) and merge(b;X,X) included (for keyless tables whose columns change an explicit refusal is accepted, silent loss is not), and through the CLI the ancestor/descendant pair with fast-forward disabled (--no-ff, merge.fastForward=never) in both orders; distinct_nontrivial = distinct (key position, column change, output path, branches, seed)",
+		Rule:        "generated (base, branch1..N) tuples, N in 2..3: base tables of 1..3 blocks with the key column(s) first / middle / last / composite / absent; per branch a seeded edit script touching few rows (cell edits incl. clearing a cell, row adds/removes, column add/remove/reorder/rename, reorder-plus-inserts, the same cell edited identically or differently, remove-vs-edit, the same new key added by all) so that most rows are untouched; driven through merge.Merger + RowCollector exactly as cmd/wrgl does (conflicts dropped, removed columns from ColDiff) with SortedRows, with SortedBlocks + IngestTableFromBlocks (result then goes through the structural monitor), and through in-process `wrgl merge` (+export, or --no-gui CONFLICTS listing); compared with a cell-level reference merge with explicit don't-cares; branch order swapped in half the cases; merge(b;X,b) and merge(b;X,X) included (for keyless tables whose columns change an explicit refusal is accepted, silent loss is not), and through the CLI the ancestor/descendant pair with fast-forward disabled (--no-ff, merge.fastForward=never) in both orders; keyless tables with a branch that reorders the columns; merges by the real binary on a store from which one object of the base, own or other table was deleted (must fail with the branch untouched, or be right); distinct_nontrivial = distinct (key position, column change, output path, branches, seed)",
 		Assumptions: []string{"cells where the statement gives no rule accept any outcome (column removed by one branch and edited by another; row removed while others only changed columns)", "the interactive merge UI is not driven", "N <= 3 branches"},
 		Gen: func(tier string, seed int64) []fw.Case {
 			l := fw.NewCaseList("C05", tier, seed)
